@@ -13,6 +13,36 @@ func init() { props["C19"] = checkC19 }
 func checkC19(r *Run) {
 	r.Explain = "(R2+) the live object returned by wallets.get never escapes: every use is a nil test or a read-only method call, it is never returned nor handed to other code; (R4+) the fingerprint of a created wallet is registered under no other condition than being non-empty (the condition of the conflict test), and unload / bulk load treat the map symmetrically; C19: (R1) typestate saved(w): every Service method that publishes a wallet into the in-memory set (wallets.set) does so only on paths where that same wallet value was saved to the wallet directory without error or is a temporary wallet (all-paths rule); a wallet added before saving is removed again on the failing edge; (R2) service methods mutate clones only: what they publish derives from getWallet (a Clone) or a freshly created wallet, and values obtained directly from the set are used read-only; (R3) a failed operation changes neither view: after wallets.set / the fingerprint update no error return is reachable (UnloadWallet is in-memory by design); (R4) a new wallet is refused when its fingerprint is already registered, before it is added; (R5) every access to the wallet set and the fingerprint map happens under the service mutex."
 	r.NotDec = "equality with a freshly started service for a concrete operation sequence; file-system failures between Save and set"
+	ruleRecoverWalletOptions(r, "C19-R6")
+	if _, aliased := loopAliasedAddrs(r.P, "wallet.", "wallet/"); true {
+		for _, in := range aliased {
+			r.Check("C19-R2", FnName(in.Parent())+": clones hold one distinct object per element", r.P.Pos(in.Pos()), false, "the address of a loop-carried variable is stored in every iteration")
+		}
+	}
+	// the in-memory set and Save are keyed by Filename(): a loaded wallet is always named after the file it came from
+	if fn := r.fn("C19-R7", "wallet.Load"); fn != nil {
+		ff := r.P.Facts(fn)
+		sites := r.CallSites(fn, "iface:wallet.Wallet.SetFilename")
+		okName := len(sites) == 1 && r.argTerm(sites[0], 0) == "filepath.Base($0)"
+		got := ""
+		if len(sites) == 1 {
+			got = r.argTerm(sites[0], 0)
+		}
+		r.Check("C19-R7", "wallet.Load names the wallet after the base name of the file it was read from", r.P.Pos(fn.Pos()), okName, got)
+		n := 0
+		for _, e := range ff.Exits() {
+			if e.Kind != ExitSuccess || e.Ret == nil {
+				continue
+			}
+			if c, isC := e.Ret.Results[0].(*ssa.Const); isC && c.IsNil() {
+				continue // unknown wallet type: nothing loaded
+			}
+			n++
+			dom := len(sites) == 1 && (sites[0].Block() == e.Ret.Block() || sites[0].Block().Dominates(e.Ret.Block()))
+			r.Check("C19-R7", "wallet.Load: every returned wallet had its file name set (unconditionally)", r.P.Pos(e.Ret.Pos()), dom, "a wallet whose stored name differs from its file is saved to, and registered under, another name")
+		}
+		r.Check("C19-R7", "wallet.Load: success exits returning a wallet", r.P.Pos(fn.Pos()), n >= 1, "")
+	}
 	nset := 0
 	for _, fn := range r.P.ModFns {
 		name := FnName(fn)
